@@ -31,7 +31,7 @@ def plan(ctx):
             hs.append(Harness(f"gen::c09g::{m['name']}", "C09",
                               f"DefaultRate{'Encoder' if m['side']=='enc' else 'Decoder'} {m['a']} with shards added, reset to {m['b']} ({'rate switches' if m['cross'] else 'same rate'}): inner rate = rule, configuration/counters/layout equal a fresh dedicated codec, no shard counted, no received bit left",
                               encodes=["DefaultRate*::reset (both branches per inner rate)", "into_parts", "HighRate*/LowRate*::new(Some(work))/reset"],
-                              bounds="concrete configuration pair", flags=FULL, timeout=900, mem_gb=6, symbolic="shard bytes", tiers=tiers))
+                              bounds="concrete configuration pair", flags=FULL, timeout=1200, mem_gb=14, symbolic="shard bytes", tiers=tiers))
         elif m["kind"] == "deleg_dec":
             hs.append(Harness(f"gen::c09g::{m['name']}", "C09",
                               f"DefaultRateDecoder ({m['k']},{m['r']}) vs dedicated {m['rate']}-rate decoder: add_original(i), add_recovery(j, length {m['ln']}), add_original(i) again with UNBOUNDED symbolic i, j return identical Results and leave identical state",
